@@ -596,3 +596,31 @@ Proof.
   destruct (Hs _ Hin) as [n [rl [E Hd]]]. rewrite E in Est. inversion Est; subst p.
   apply add_step_safe. exact Hd.
 Qed.
+
+(** the consumers are total on every verified specification: each key they
+    index is present with the kind of value they need *)
+Theorem consumers_total sp u : verify sp = Ok u ->
+  get_study_environment (sp_env sp) <> Err Internal /\
+  get_study_steps (sp_study sp) <> Err Internal /\
+  get_parameters (sp_globals sp) <> Err Internal /\
+  (forall steps nodes, get_study_steps (sp_study sp) = Ok steps -> mfold add_step steps nodes <> Err Internal).
+Proof.
+  intro V. apply verify_ok_inv in V. destruct V as [Vd Ve [steps [Es [Hne Vs]]] Vg].
+  assert (Hs : forall st, In st steps -> exists n rl, step_fn st = Ok (JStr n, rl) /\
+             (forall x, lookup (s "depends") rl = Some x -> exists ds, x = JArr ds /\ forall y, In y ds -> exists z, y = JStr z)).
+  { intros st Hin. apply step_fn_item. apply step_facts. apply Vs. exact Hin. }
+  split; [apply get_study_environment_safe; exact Ve|].
+  split.
+  { rewrite get_study_steps_eq, Es. simpl iter. simpl bind. apply safe_mmap.
+    intros st Hin. destruct (Hs _ Hin) as [n [rl [E _]]]. rewrite E. apply safe_ok. }
+  split; [apply get_parameters_safe; exact Vg|].
+  intros sts nodes Hsts.
+  rewrite get_study_steps_eq, Es in Hsts. simpl in Hsts. apply mmap_ok in Hsts.
+  apply safe_mfold. intros nodes' p Hp.
+  destruct (Forall2_in_r _ _ _ _ Hsts Hp) as [st [Hin Est]].
+  destruct (Hs _ Hin) as [n [rl [E Hd]]]. rewrite E in Est. inversion Est; subst p.
+  apply add_step_safe. exact Hd.
+Qed.
+
+Theorem verify_never_internal sp : verify sp <> Err Internal.
+Proof. exact (verify_safe sp). Qed.
